@@ -1,5 +1,5 @@
-(* C05 -- Outbound messages are numbered 1,2,3,... (sequential layer; the concurrency layer is
-   added to this file when the structural extraction is in place). *)
+(* C05 -- Outbound messages are numbered 1,2,3,... with no gap, duplicate or reordering:
+   the sequential layer (per send and over whole histories) and the concurrency layer. *)
 From SF Require Import Bytes Values Wire Parse Session Session_proofs Session_clean.
 
 (* every message that Session.send transmits carries the counter value it has just advanced to,
@@ -24,6 +24,33 @@ Theorem C05_stamp :
     get_string tag_SendingTime (m_header (stamped s m)) = sending_time_placeholder.
 Proof. intros s m H. split; [apply stamped_seq; exact H|apply stamped_ids; exact H]. Qed.
 Print Assumptions C05_stamp.
+
+(* over whole histories: whatever operations the application and the peer perform, in whatever
+   order (sends, inbound messages of every kind incl. ResendRequests, logon/logout, timers firing,
+   registrations of pass-through handlers), every message on the wire either carries exactly the
+   next number or is a retransmission of a stored, already numbered message: the fresh numbers are
+   c+1, c+2, ..., w' with no gap, duplicate or reordering, and w' is the outbound counter as long
+   as the router has not been stopped (after Stop, numbers may be taken that never reach the wire) *)
+From Coq Require Import List ZArith.
+From SF Require Import Session_c05.
+Theorem C05_history_numbering :
+  forall cfg ci c store ops s' os,
+    c_fail_saves cfg = nil ->
+    (forall k m, store_get store k = Some m -> (seq_of m <= c)%Z) ->
+    Forall op_clean ops ->
+    run_ops cfg (init_state cfg ci c store) ops = (s', os) ->
+    exists w',
+      numbered c (wire_seqs (concat os)) w'
+      /\ fresh c (wire_seqs (concat os)) = zrange c (Z.to_nat (w' - c))
+      /\ (w' <= s_cnt_out s')%Z /\ (s_router_stopped s' = false -> w' = s_cnt_out s').
+Proof. exact C05_history. Qed.
+Print Assumptions C05_history_numbering.
+
+Theorem C05_history_nonvacuous :
+  wire_seqs (concat (snd (run_ops ex5_cfg (init_state ex5_cfg 0%Z 5%Z nil) ex5_ops))) = (6 :: 7 :: 8 :: 9 :: nil)%Z
+  /\ Forall op_clean ex5_ops.
+Proof. exact history_example. Qed.
+Print Assumptions C05_history_nonvacuous.
 
 (* ---- concurrency layer ---- *)
 From Coq Require Import String List NArith.
